@@ -179,3 +179,24 @@ def pattern (inp : OdeInput) : List (List Nat) :=
   (List.range n).map fun i => (List.range n).map fun j => if (jacEntry inp i j).isZero then 0 else 1
 
 end Naunet
+
+namespace Naunet
+
+/-! ### rate modifiers (templateloader lines 182-186) -/
+
+/-- one emitted rate statement: optional window guard text and the right-hand side text -/
+structure RateStmt where
+  guard : Option String
+  rhs   : String
+  deriving DecidableEq, Repr
+
+/-- the loop `for key, value in rate_modifier.items(): if key == reac.idxfromfile: rateeqns[idx] = …`
+    for one reaction: every matching entry overwrites, so the last one in dict order stays -/
+def overrideOne (mods : List (Int × String)) (idxfromfile : Int) (orig : RateStmt) : RateStmt :=
+  mods.foldl (fun cur kv => if kv.1 = idxfromfile then ⟨none, kv.2⟩ else cur) orig
+
+def applyOverrides (mods : List (Int × String)) : List Int → List RateStmt → List RateStmt
+  | i :: is, s :: ss => overrideOne mods i s :: applyOverrides mods is ss
+  | _, _ => []
+
+end Naunet
